@@ -10,7 +10,7 @@ import networkx as nx
 
 from .. import env
 from .. import resgen, invariants
-from ..runner import sut, expect, Fail, SutError, Collector, hypothesis_run, evaluate
+from ..runner import sut, expect, Fail, SutError, Collector, hypothesis_run, evaluate, note
 from .c02 import run_steps, AROMATIC_REJECT
 
 ID = 'C12'
@@ -150,6 +150,16 @@ def _rest_of_oracle(case, bl, ref, aa, legacy):
     expect(lib_dump(dicts) == before, 'determinism:library-modified', 'the fragment graphs passed to from_fragment_dicts were modified')
     d5 = full_dump(*sut(lambda: MoleculeResolver.from_fragment_dicts(bl[0], dicts, last_all_atom=aa, legacy=legacy).resolve_all()))
     expect(d5 == ref, 'determinism:library-reuse', 'second resolver on the same fragment graphs gives a different result')
+    names = [k for d in dicts for k in d]
+    if len(dicts) >= 2 and len(set(names)) == len(names):
+        # one library object holding the fragments of every level, passed for each level
+        merged = {}
+        for d in dicts:
+            merged.update(d)
+        note('one_library_dict_for_all_levels')
+        d6 = full_dump(*sut(lambda: MoleculeResolver.from_fragment_dicts(bl[0], [merged] * len(dicts), last_all_atom=aa, legacy=legacy).resolve_all()))
+        expect(d6 == ref, 'determinism:one-library-for-all-levels',
+               'from_fragment_dicts with the same library dict for every level differs from from_string')
 
 
 # ----------------------------------------------------------------------------------------
@@ -341,6 +351,38 @@ class HistoryModel:
         self._memo(('sample', c['input'], sd, target), out,
                    'sampling from the shared library of %s (seed %d) changed within this history' % (c['input'], sd))
 
+    def extend(self, i, variant):
+        """read_fragments(text, fragment_dict=<library>): 'only unique new fragments are appended' - a definition
+        under a name the library already holds must leave that entry as it is"""
+        from cgsmiles.read_fragments import read_fragments
+        if not self.libs:
+            return
+        lib = self.libs[i % len(self.libs)]
+        c = lib['case']
+        fd = lib['dicts'][-1]
+        aa = c['last_all_atom']
+        old_names = sorted(fd)
+        name = old_names[variant % len(old_names)]
+        other = ['[$]CCO[$]', '[>]N[<]', 'OC[$z]', '[$]S'][variant % 4] if aa else ['[$][#q1][#q2][$]', '[>][#q1]', '[#q3][#q3][$z]', '[$][#zz]'][variant % 4]
+        new = 'NEW%d' % (variant % 3)
+        text = '{#%s=%s,#%s=%s}' % ((name, other, new, other) if variant % 2 else (new, other, name, other))
+        self.count('extend')
+        self.log.append(['extend', i, variant])
+        before = {k: invariants.dump_obj(fd[k]) for k in old_names}
+        ids = {k: id(fd[k]) for k in old_names}
+        try:
+            out = sut(read_fragments, text, all_atom=aa, fragment_dict=fd)
+        except SutError:
+            return
+        if out is not fd:
+            raise HistoryFailure('history:library-not-extended-in-place', 'read_fragments(%s, fragment_dict=lib) returned another dict' % text)
+        for k in old_names:
+            if k not in fd or id(fd[k]) != ids[k] or invariants.dump_obj(fd[k]) != before[k]:
+                raise HistoryFailure('history:library-modified', 'read_fragments(%s, fragment_dict=library of %s) replaced or changed the entry %s' % (text, c['input'], k))
+        if new not in fd:
+            raise HistoryFailure('history:library-not-extended', 'read_fragments(%s, fragment_dict=lib): %s was not appended' % (text, new))
+        lib['dump0'] = lib_dump(lib['dicts'])
+
     def check_libs(self):
         for lib in self.libs:
             if lib_dump(lib['dicts']) != lib['dump0']:
@@ -407,6 +449,11 @@ def run_machine(seed, n_histories, steps, col):
         @rule(i=st.integers(0, 50), sd=st.integers(0, 5), tw=st.integers(1, 6))
         def sample(self, i, sd, tw):
             self._do(self.m.sample, i, sd, tw)
+
+        @precondition(lambda self: self.m.libs)
+        @rule(i=st.integers(0, 50), variant=st.integers(0, 23))
+        def extend(self, i, variant):
+            self._do(self.m.extend, i, variant)
 
         @invariant()
         def libraries_untouched(self):
